@@ -10,7 +10,11 @@ PROPS=${@:-$(basename $S | cut -d- -f1)}
 WT=/tmp/mrepo-$$
 git -C /repo worktree add -q --detach $WT HEAD || exit 2
 trap 'git -C /repo worktree remove --force $WT >/dev/null 2>&1; rm -rf $WT; $HERE/.build/go2lean /repo $HERE/tools/go2lean/targets.json $HERE/lean >/dev/null 2>&1' EXIT   # lean/Gen back to the translation of /repo
-git -C $WT apply $P || { echo "PATCH DOES NOT APPLY: $P"; exit 2; }
+if ! git -C $WT apply $P 2>/dev/null; then
+  # a later fix: commit changed the lines the seed touches: use the rebased copy (same semantic change on the repaired tree)
+  RB=$HERE/props/$(basename $S | cut -d- -f1).seed-$(basename $S | cut -d- -f2)-rebased.diff
+  if [ -f $RB ] && git -C $WT apply $RB; then echo "[$S] (rebased copy $RB)"; else echo "PATCH DOES NOT APPLY: $P"; exit 2; fi
+fi
 # hook files a builder has added in this worktree but the integrator has not yet committed to /repo
 for f in $HERE/hooks/verif_export_*.go.txt; do b=$(basename $f .txt); [ -f $WT/$b ] || cp $f $WT/$b; done
 cd $HERE
